@@ -283,7 +283,7 @@ func (e *Env) inlineCall(pkg *Pkg, fd *ast.FuncDecl, fn *types.Func, sig *types.
 				if args[i].Dyn != nil && counts[obj] == 0 {
 					e.constVals[obj] = args[i]
 				}
-				if i < len(callArgs) && !sig.Variadic() {
+				if i < len(callArgs) && (!sig.Variadic() || i < sig.Params().Len()-1) {
 					// class of the actual, judged in the caller's package context
 					save := e.pkg
 					e.pkg = savedPkg
@@ -499,7 +499,7 @@ func (e *Env) callContract(fc *FuncContract, key string, sig *types.Signature, r
 			off = 1
 		}
 		for i, n := range fc.Params {
-			if n == param && i-off >= 0 && i-off < len(callArgs) && !sig.Variadic() {
+			if n == param && i-off >= 0 && i-off < len(callArgs) && (!sig.Variadic() || i-off < sig.Params().Len()-1) {
 				return e.classify(callArgs[i-off])
 			}
 		}
@@ -655,6 +655,15 @@ func (e *Env) callContract(fc *FuncContract, key string, sig *types.Signature, r
 	for _, r := range ms.roots {
 		e.assumeTyping(r)
 	}
+	// ownership discipline: a byte-slice field of a modified object ends up on its old array, a
+	// fresh one, nil, or the array of a slice argument (the callee proves this: "frame.own")
+	if modMem {
+		for _, r := range ms.roots {
+			for _, t := range e.ownTerms(r, actuals, oldMap, Var(snap["$nextRef"], SInt)) {
+				e.ownAssume = append(e.ownAssume, t)
+			}
+		}
+	}
 	if modMem {
 		e.havoc("Mem", SMem)
 		e.havoc("$nextRef", SInt)
@@ -671,6 +680,10 @@ func (e *Env) callContract(fc *FuncContract, key string, sig *types.Signature, r
 		e.assume(Forall([]*Term{r}, Implies(And(Lt(r, preRef), Or(Eq(r, IntLit(0)), And(excl...))),
 			Eq(Select(e.mem(), r), Select(Var(snap["Mem"], SMem), r)))))
 	}
+	for _, t := range e.ownAssume {
+		e.assume(t)
+	}
+	e.ownAssume = nil
 	if ms.memU {
 		e.havoc("MemU", SMemU)
 	}
@@ -1069,4 +1082,40 @@ func (e *Env) opaqueInv(v Value, t types.Type, key string, oldMap func(string, S
 	}
 	e.w.opaqueInvs[shortKey(key)] = true
 	return t0
+}
+
+
+// ownTerms: for every byte-slice leaf of root r, "new ref is the old ref, fresh, nil, or a slice argument's".
+// oldMap gives the pre-state; preNextRef is $nextRef before the call.
+func (e *Env) ownTerms(r Value, actuals []Value, oldMap func(string, Sort) *Term, preNextRef *Term) []*Term {
+	var out []*Term
+	t := r.Typ
+	if r.K == VPtr {
+		t = derefType(t)
+	}
+	walkLeaves(t, nil, func(steps []subStep, lf leaf) {
+		if lf.K != VSlice || lf.ElemU {
+			return
+		}
+		if _, isArr := lf.Typ.Underlying().(*types.Array); isArr {
+			return
+		}
+		id := subID(r.T, steps)
+		if oldMap != nil {
+			id = id.Subst(oldMap)
+		}
+		nv := e.loadField(id, lf)
+		ov := nv.Ref
+		if oldMap != nil {
+			ov = nv.Ref.Subst(oldMap)
+		}
+		alts := []*Term{Eq(nv.Ref, ov), Eq(nv.Ref, IntLit(0)), And(Ge(nv.Ref, preNextRef), Lt(nv.Ref, e.nextRef()))}
+		for _, a := range actuals {
+			if a.K == VSlice && !a.ElemU {
+				alts = append(alts, Eq(nv.Ref, a.Ref))
+			}
+		}
+		out = append(out, Or(alts...))
+	})
+	return out
 }
